@@ -25,6 +25,8 @@ func NewLuaDecoder(prefs LuaPreferences) Decoder {
 func (dec *luaDecoder) Init(reader io.Reader) error {
 	verifYield("decoder.Init")
 	dec.reader = reader
+	// a decoder reads one stream after another (several files on the command line)
+	dec.finished = false
 	return nil
 }
 
